@@ -29,7 +29,15 @@ USER_OPTS = converter.ConversionOptions(recursive=True, user_requested=True,
 CONVERTED_ARTIFACT = malt.to_graph(T.decorated.__wrapped__)
 DNC = malt.experimental.do_not_convert(T.fn)
 
+import os as _os
+import sys as _sys
+_sys.path.insert(0, _os.path.join(_os.path.dirname(_os.path.abspath(__file__)), 'lookalike'))
+import copy_utils_vf, maltese_vf, numpy_like_vf, reporting_vf  # pylint:disable=wrong-import-position
+
 KINDS = {
+    # top-level user modules whose names only BEGIN with an allow-listed module name
+    'look_re': reporting_vf.classify, 'look_copy': copy_utils_vf.classify,
+    'look_malt': maltese_vf.classify, 'look_numpy': numpy_like_vf.classify,
     'fn': T.fn, 'lam': T.lam, 'bound': T.OBJ.meth, 'unbound': T.K.meth, 'cmeth': T.K.cmeth,
     'cmeth_inst': T.OBJ.cmeth, 'smeth': T.K.smeth, 'callable_obj': T.OBJ, 'cls': T.K,
     'part1': T.part1, 'part2': T.part2, 'part_kw': T.part_kw, 'gen': T.gen_fn,
@@ -45,6 +53,10 @@ KINDS = {
 # call shapes: (positional template, keyword template); 'x','y','z' are replaced by
 # the symbolic ints, OBJ by T.OBJ, L by a small list
 SHAPES = {
+    'look_re': [(('x',), None), (('x',), {'b': 'y'})],
+    'look_copy': [(('x',), None)],
+    'look_malt': [(('x',), None)],
+    'look_numpy': [(('x',), None)],
     'fn': [(('x',), None), (('x', 'y'), {}), (('x', 'y', 'z'), {'k': 'z'}), ((), {'a': 'x', 'b': 'y'}),
            (('x',), {'k': 'y', 'extra': 'z'}), ((), None), (('x',), {'a': 'y'})],
     'lam': [(('x',), None), (('x', 'y'), None), ((), {'a': 'x'}), (('x', 'y', 'z'), None)],
@@ -139,7 +151,7 @@ def prewarm(name):
 # -- policy -------------------------------------------------------------------
 STATUSES = [ag_ctx.Status.UNSPECIFIED, ag_ctx.Status.ENABLED, ag_ctx.Status.DISABLED]
 
-CONVERTIBLE = {'fn', 'lam', 'bound', 'unbound', 'cmeth', 'cmeth_inst', 'smeth', 'callable_obj',
+CONVERTIBLE = {'look_re', 'look_copy', 'look_malt', 'look_numpy', 'fn', 'lam', 'bound', 'unbound', 'cmeth', 'cmeth_inst', 'smeth', 'callable_obj',
                'decorated', 'raises', 'falsy_bound', 'falsy_callable', 'falsy_cmeth'}
 NEVER = {'cls', 'namedtuple', 'lru', 'execd', 'artifact', 'dnc', 'b_len', 'b_abs', 'b_max',
          'b_divmod', 'c_add', 'lib_escape', 'lib_copy', 'lib_odict'}
